@@ -72,6 +72,12 @@ func churn(r *core.Run, n int) {
 			s := busdrv.Script{Cfg: plainCfg}
 			k := 3 + rnd.IntN(3)
 			perm := rnd.Perm(len(fns))
+			if r.Thorough() && i%4 == 0 {
+				// a long list in front: the scan inside Unsubscribe takes longer, which widens its windows
+				for j := 0; j < 60; j++ {
+					s.Setup = append(s.Setup, busdrv.Op{Op: "sub", T: t, Fn: fns[perm[k%len(fns)]], Once: j%7 == 3})
+				}
+			}
 			for j := 0; j < k; j++ {
 				s.Setup = append(s.Setup, busdrv.Op{Op: "sub", T: t, Fn: fns[perm[j%len(fns)]]})
 			}
